@@ -360,7 +360,12 @@ class Executor:
 
     def mem_key(self, elem, i, sort):
         if is_scalar_type(elem):
-            return sort_key(sort)
+            # Go's type system keeps slices of different element types apart ([]int64 never shares an array with
+            # []uint64); bytes and strings share one space (unsafe.String / []byte(s) conversions)
+            u = elem.under()
+            if sort_key(sort) == "bv8":
+                return "bv8"
+            return "%s:%s" % (sort_key(sort), u.d.get("name"))
         return elem.s + "#%d" % i
 
     def mem_arr(self, st, key, sort):
